@@ -9,6 +9,8 @@ transpose-adjoint    backend::transpose stores math::adjoint(A.val[j]) - every v
 product-dispatch     backend::product hands the same (A, B, *C) to the marker-based and to the row-merge kernel (the latter is
                      selected only above 16 threads, which no test reaches), and returns that C
 factor-order         the marker-based kernel multiplies (entry of A) * (entry of B) in this order at every accumulation site
+rmerge-row-consumed / rmerge-coefficient   (rmerge.py) the row-merge kernel walks the whole row of A on every path and pairs each
+                     column with its own value
 radius-siblings      the diagonal scaling of the Gershgorin / power-method estimate is the same code in the serial and the
                      distributed kernel (shared with C06)
 """
@@ -293,7 +295,9 @@ def main(tier):
     c06.rule_chebyshev_bounds(ck, units, which=('sib',))
     c06.rule_power_norm(ck, units)
     rule_first_flag(ck, units)
-    ck.assumptions += ['that the kernels compute the products, sums and transposes their definitions prescribe (values, well-formed CRS structure), the row-merge kernel, the Gershgorin / power-method bounds '
+    import rmerge
+    rmerge.rule_rmerge(ck, units, control=cu['controls'])
+    ck.assumptions += ['that the kernels compute the products, sums and transposes their definitions prescribe (values, well-formed CRS structure), merge_rows of the row-merge kernel, the Gershgorin / power-method bounds '
                        'themselves and the block-to-pointwise reduction are NOT decided: they quantify over values',
                        'operator* of the value types is the algebraic product']
     return ck.finish()
